@@ -15,6 +15,9 @@ import (
 	ssi "github.com/nuts-foundation/go-did"
 	"github.com/nuts-foundation/go-did/did"
 	"github.com/nuts-foundation/go-did/vc"
+	"github.com/nuts-foundation/nuts-node/crypto/hash"
+	"github.com/nuts-foundation/nuts-node/network/dag"
+	"github.com/nuts-foundation/nuts-node/vcr/credential"
 	"github.com/nuts-foundation/nuts-node/vcr/issuer"
 	"github.com/nuts-foundation/nuts-node/vcr/revocation"
 	"github.com/nuts-foundation/nuts-node/vcr/types"
@@ -447,5 +450,92 @@ func multiEntrySweep(t *testing.T, r *ev.Run) {
 			t.Fatalf("harness: only %d multi-entry cases", cases)
 		}
 		r.Bound("multi_entry_credentials", cases)
+	})
+}
+
+// ------------------------------------------------------------------ clock offsets between issuer and receiver
+
+// clockOffsetSweep: the issuer's clock is not the receiver's. For every offset of the revocation's date (and proof
+// creation time) relative to node V's clock, a validly signed revocation by the credential's issuer reaches node V - once
+// through the real ambassador receiver under the notifier's contract, once through RegisterRevocation directly - and,
+// per the statement, every later verification on that node fails as revoked. The unchanged node accepts every date
+// (vcr/credential/revocation.go demands only a non-zero date; no skew is documented), so every offset is judged.
+func clockOffsetSweep(t *testing.T, r *ev.Run) {
+	offsets := []struct {
+		name string
+		d    time.Duration
+	}{{"minus-1-year", -365 * 24 * time.Hour}, {"minus-1-hour", -time.Hour}, {"minus-1-second", -time.Second}, {"same-instant", 0}, {"plus-1-second", time.Second},
+		{"plus-4-seconds", 4 * time.Second}, {"plus-6-seconds", 6 * time.Second}, {"plus-1-minute", time.Minute}, {"plus-1-hour", time.Hour}, {"plus-1-day", 24 * time.Hour}}
+	paths := []string{"ambassador", "register"}
+	var hist []event
+	for range offsets {
+		for range paths {
+			hist = append(hist, event{Op: "issueNuts", I: 1})
+		}
+	}
+	// one credential per case; bounds of the BFS do not apply here
+	t.Run(uniq("s"), func(t *testing.T) {
+		w := newWorld(t, r, "fresh", false)
+		w.start = "clock-offset"
+		for range hist {
+			w.issue(1, false)
+		}
+		issuerD := issuerDID(1, false)
+		n := 0
+		for _, off := range offsets {
+			for _, path := range paths {
+				mc := w.m.Creds[n]
+				n++
+				class := path + "|" + off.name
+				r.Eval("clock-offset|" + class)
+				w.hist = []event{{Op: "deliver", C: mc.N, K: "revocation dated " + off.name + " relative to the receiving node's clock, via " + path}}
+				if v := w.verifyOn(w.V, mc.N); v != "ok" {
+					t.Fatalf("harness: nuts credential c%d does not verify before its revocation: %s", mc.N, v)
+				}
+				when := vtime.Now().Add(off.d)
+				rev := credential.BuildRevocation(issuerD.URI(), ssi.MustParseURI(mc.ID))
+				rev.Date = when
+				b, _ := json.Marshal(w.signLD(rev, kidOf(issuerD), when))
+				var signed credential.Revocation
+				if err := json.Unmarshal(b, &signed); err != nil {
+					t.Fatalf("harness: %v", err)
+				}
+				mc.Revoked, mc.RevPublished = true, true
+				state, lastErr := "finished", error(nil)
+				if path == "register" {
+					lastErr = w.V.ver.RegisterRevocation(signed)
+					if lastErr != nil {
+						state = "refused"
+					}
+				} else {
+					payload, _ := json.Marshal(signed)
+					utx, err := dag.NewTransaction(hash.SHA256Sum(payload), types.RevocationLDDocumentType, nil, nil, 0)
+					if err != nil {
+						t.Fatal(err)
+					}
+					tx := utx.(dag.Transaction)
+					evt := dag.Event{Type: dag.PayloadEventType, Hash: tx.Ref(), Transaction: tx, Payload: payload}
+					state = "pending"
+					for attempts := 0; state == "pending" && attempts < 10; attempts++ {
+						finished, err := w.V.revReceiver(evt)
+						lastErr = err
+						switch {
+						case err != nil && errors.As(err, new(dag.EventFatal)):
+							state = "dropped"
+						case err == nil && finished:
+							state = "finished"
+						}
+					}
+				}
+				known, _ := w.V.ver.IsRevoked(ssi.MustParseURI(mc.ID))
+				verdict := w.verifyOn(w.V, mc.N)
+				r.Outcome(fmt.Sprintf("revocation dated %s via %s: %s, registered=%v, verify=%s", off.name, path, state, known, verdict))
+				if !known || verdict == "ok" {
+					w.violation("received-revocation-lost", "clock-offset|"+class, fmt.Sprintf("node V received the issuer's validly signed revocation of c%d whose date is %s relative to its own clock (via %s: %s, last error: %v); registered=%v and verification answers %s",
+						mc.N, off.name, path, state, lastErr, known, verdict))
+				}
+			}
+		}
+		r.Bound("revocation_clock_offsets", len(offsets))
 	})
 }
